@@ -81,12 +81,9 @@ Proof. vm_compute. repeat split. Qed.
    holds for every node of a canonical forest from the empty scope - also when modules share a prefix (numbered prefixes).
    (For the bytes the same follows from C12_xml_doc_std: Unique Att Spec and Prefix Declared are checked by the standard
    reader, the namespaces of the attributes are part of its result.)
-   NOT covered, for lack of prefixed VALUES in the model: the Tree subset holds canonical strings only, so the part of
-   xml_print_term() / xml_print_meta() that defines namespaces for the prefixes INSIDE identityref / instance-identifier /
-   xpath1.0 values (e9b7253: the modules of the values of a start tag are reserved first, definitions through
-   xml_print_ns(REQUIRED), hidden definitions not reused) is vacuous here: no value module, nothing reserved, and with
-   pairwise distinct prefixes in the scope (the invariant of the proof) no definition is hidden. That part is checked by
-   QNamesX / RoundTripTypes only. *)
+   NOT covered by THIS statement: prefixes INSIDE values - the Tree subset of XmlDoc.v holds canonical strings only, so the
+   part of xml_print_term() / xml_print_meta() that defines namespaces for identityref / instance-identifier / xpath1.0
+   values (e9b7253) is vacuous here. It is modelled separately, per start tag, in XmlQn.v: C12_xml_value_prefixes below. *)
 Theorem C12_xml_doc_start_tags :
   forall sch t f,
     tabs_okb sch t = true -> Canon sch f -> Forall (DocN sch t V_std) f ->
